@@ -117,7 +117,7 @@ Proof.
     rewrite (IHl (set_subc c (needs_brackets_x bo (top_bop l))) Hwa H), (IHr (set_subc c (needs_brackets_x bo (top_bop r))) Hwa Hq).
     reflexivity.
   - (* TIn *) intros t IHt cont IHc neg a c Hwa H. cbn [quiet] in H. split_and H. noalias a H. cbn [render strip_all].
-    rewrite opc_strip, (IHt (opc SInTerm t (set_subq c false)) (wa_opc_false _ _ _ Hwa) Hq0), (IHc (set_subq c true) Hwa Hq).
+    rewrite opc_strip, (IHt (opc SInTerm t (set_subq c false)) (wa_opc_false SInTerm t (set_subq c false) Hwa) Hq0), (IHc (set_subq c true) Hwa Hq).
     destruct (render (opc SInTerm t (set_subq c false)) (strip_all t)); [|reflexivity]. cbn [bind]. rewrite opnd_strip. reflexivity.
   - (* TBetween *) intros t IHt lo IHlo hi IHhi a c Hwa H. cbn [quiet] in H. split_and H. noalias a H. cbn [render strip_all].
     rewrite !opc_strip, (IHt (opc SBetTerm t c) (wa_opc_false _ _ _ Hwa) Hq1), (IHlo (opc SBetLo lo c) (wa_opc_false _ _ _ Hwa) Hq0),
@@ -195,14 +195,18 @@ Proof.
   intros t c Hwa Hc Hq. unfold select_spec.
   destruct t; try discriminate Hc; cbn [quiet] in Hq; cbn [alias_of reach_q reach_aq alias_behaviour].
   - (* TField *) cbn [render strip_all]. rewrite Hwa. cbn [wa set_wa bind]. destruct c; reflexivity.
-  - (* TArith *) split_and Hq. cbn [render strip_all]. rewrite set_wa_idem, !top_op_strip.
-    rewrite (quiet_render t1 (set_wa c false) eq_refl Hq), (quiet_render t2 (set_wa c false) eq_refl Hq0), Hwa.
-    destruct (render (set_wa c false) (strip_all t1)); [|reflexivity].
-    destruct (render (set_wa c false) (strip_all t2)); reflexivity.
-  - (* TBasic *) split_and Hq. cbn [render strip_all]. rewrite set_wa_idem.
-    rewrite (quiet_render t1 (set_wa c false) eq_refl Hq), (quiet_render t2 (set_wa c false) eq_refl Hq0), Hwa.
-    destruct (render (set_wa c false) (strip_all t1)); [|reflexivity].
-    destruct (render (set_wa c false) (strip_all t2)); reflexivity.
+  - (* TArith *) split_and Hq. cbn [render strip_all]. rewrite set_wa_idem, !top_op_strip, !opc_strip.
+    rewrite (quiet_render t1 (opc SArithL t1 (set_wa c false)) (wa_opc_setwa _ _ _) Hq),
+            (quiet_render t2 (opc SArithR t2 (set_wa c false)) (wa_opc_setwa _ _ _) Hq0), Hwa.
+    destruct (render (opc SArithL t1 (set_wa c false)) (strip_all t1)); [|reflexivity].
+    destruct (render (opc SArithR t2 (set_wa c false)) (strip_all t2)); [|reflexivity].
+    cbn [bind wa set_wa]. rewrite !opnd_strip. reflexivity.
+  - (* TBasic *) split_and Hq. cbn [render strip_all]. rewrite set_wa_idem, !opc_strip.
+    rewrite (quiet_render t1 (opc SCmpL t1 (set_wa c false)) (wa_opc_setwa _ _ _) Hq),
+            (quiet_render t2 (opc SCmpR t2 (set_wa c false)) (wa_opc_setwa _ _ _) Hq0), Hwa.
+    destruct (render (opc SCmpL t1 (set_wa c false)) (strip_all t1)); [|reflexivity].
+    destruct (render (opc SCmpR t2 (set_wa c false)) (strip_all t2)); [|reflexivity].
+    cbn [bind wa set_wa]. rewrite !opnd_strip. reflexivity.
   - (* TCase *) split_and Hq. cbn [strip_all]. rewrite !render_case, set_wa_idem.
     rewrite (quiet_render_whens ws (set_wa c false) eq_refl Hq), (quiet_else els (set_wa c false) eq_refl Hq0), Hwa.
     pose proof (strip_whens_nil_iff ws) as N. destruct ws; [reflexivity|]. clear N.
